@@ -109,6 +109,27 @@ func (vc *VC) define(base string, t Term) Term {
 	if len(t.S) < 24 && !strings.Contains(t.S, " ") {
 		return t
 	}
+	// keep constructors visible so that projections simplify syntactically
+	for _, c := range []struct {
+		ctor  string
+		sorts []Sort
+		names []string
+	}{
+		{"mk-slice", []Sort{SBV64, SBV64, SBV64, SBV64}, []string{"obj", "off", "len", "cap"}},
+		{"mk-str", []Sort{SBV64, SBV64}, []string{"ptr", "len"}},
+		{"mk-iface", []Sort{SBV64, SBV64}, []string{"typ", "val"}},
+	} {
+		if strings.HasPrefix(t.S, "("+c.ctor+" ") {
+			parts := splitTop(t.S[len(c.ctor)+2 : len(t.S)-1])
+			if len(parts) == len(c.sorts) {
+				var named []Term
+				for i, p := range parts {
+					named = append(named, vc.define(base+"$"+c.names[i], Term{p, c.sorts[i]}))
+				}
+				return app(c.ctor, t.Sort, named...)
+			}
+		}
+	}
 	n := vc.fresh(base)
 	vc.items = append(vc.items, Item{kind: itDecl, text: fmt.Sprintf("(define-fun %s () %s %s)", n, t.Sort, t.S)})
 	return Term{n, t.Sort}
@@ -205,6 +226,21 @@ func (vc *VC) blockOp(base string, h Term, dobj, doff, n Term, inside func(i str
 
 // blockCopy: [doff, doff+n) of object dobj receives srcInner[soff ...].
 func (vc *VC) blockCopy(base string, h Term, srcInner Term, dobj, doff, soff, n Term) Term {
+	if k, _, ok := litVal(n); ok && k <= 16 {
+		// a constant number of elements: plain stores
+		if k == 0 {
+			return h
+		}
+		es := string(h.Sort)
+		innerSort := Sort(es[len("(Array (_ BitVec 64) ") : len(es)-1])
+		is := string(innerSort)
+		elemSort := Sort(is[len("(Array (_ BitVec 64) ") : len(is)-1])
+		inner := mkSelect(h, dobj, innerSort)
+		for i := uint64(0); i < k; i++ {
+			inner = mkStore(inner, bvAdd(doff, bvLit(64, i)), mkSelect(srcInner, bvAdd(soff, bvLit(64, i)), elemSort))
+		}
+		return vc.define(base, mkStore(h, dobj, inner))
+	}
 	return vc.blockOp(base, h, dobj, doff, n, func(i string) string {
 		return fmt.Sprintf("(select %s (bvadd %s (bvsub %s %s)))", srcInner.S, soff.S, i, doff.S)
 	})
